@@ -145,8 +145,8 @@ def reformat_files(
         make_parents: Whether to make parent directories if they don't exist.
         list_spacing: Control list spacing: "preserve" (default), "loose", or "tight".
     """
-    if len(files) == 1 and files[0] == "-":
-        # Single stdin case - use original function
+    if len(files) == 1:
+        # A single input (stdin or one file) may go to stdout, in place or to `output`.
         reformat_file(
             path=files[0],
             output=output,
